@@ -1,50 +1,53 @@
-import sys; sys.path.insert(0,'/verif')
+#!/usr/bin/env python3
+"""Self-test of engine/octa.py (development tool, not a registered check): correct and deliberately wrong variants of the
+saturating add / subtract, with the verdict each must get (True = proved equal to clamp(x +|- y), False = refuted with a
+region, None = outside the fragment).  Exit 0 iff every verdict is the expected one."""
+import sys
+sys.path.insert(0, '/verif')
 from engine import terms as T, octa
-def K(w,v): return T.const(w,v)
-for W in (8,32):
-    a=T.atom_bv('s',0,W); b=T.atom_bv('t',0,W)
-    MAX=(1<<(W-1))-1; MIN=1<<(W-1)
-    good=T.sel(T.icmp('sgt',a,K(W,0)), T.sel(T.icmp('sgt',b,T.sub(K(W,MAX),a)),K(W,MAX),T.add(a,b)),
-               T.sel(T.and_(T.icmp('slt',a,K(W,0)),T.icmp('slt',b,T.sub(K(W,MIN),a))),K(W,MIN),T.add(a,b)))
-    print(W,'good sadd',octa.saturating(good,a,b,W,+1))
-    # sadd(a,-b) as ssub
-    nb=T.neg(b)
-    bad=T.sel(T.icmp('sgt',a,K(W,0)), T.sel(T.icmp('sgt',nb,T.sub(K(W,MAX),a)),K(W,MAX),T.add(a,nb)),
-               T.sel(T.and_(T.icmp('slt',a,K(W,0)),T.icmp('slt',nb,T.sub(K(W,MIN),a))),K(W,MIN),T.add(a,nb)))
-    print(W,'sadd(a,-b) as ssub',octa.saturating(bad,a,b,W,-1))
-    # off by one: >= instead of >
-    bad2=T.sel(T.icmp('sgt',a,K(W,0)), T.sel(T.icmp('sge',b,T.sub(K(W,MAX),a)),K(W,MAX),T.add(a,b)),
-               T.sel(T.and_(T.icmp('slt',a,K(W,0)),T.icmp('slt',b,T.sub(K(W,MIN),a))),K(W,MIN),T.add(a,b)))
-    print(W,'>= variant (still correct: equality gives MAX either way)',octa.saturating(bad2,a,b,W,+1))
-    bad3=T.sel(T.icmp('sgt',a,K(W,0)), T.sel(T.icmp('sgt',b,T.sub(K(W,MAX-1),a)),K(W,MAX),T.add(a,b)),
-               T.sel(T.and_(T.icmp('slt',a,K(W,0)),T.icmp('slt',b,T.sub(K(W,MIN),a))),K(W,MIN),T.add(a,b)))
-    print(W,'MAX-1 variant',octa.saturating(bad3,a,b,W,+1))
-    bad4=T.sel(T.icmp('sgt',a,K(W,0)), T.sel(T.icmp('sgt',b,T.sub(K(W,MAX),a)),K(W,MAX),T.add(a,b)),
-               T.sel(T.and_(T.icmp('slt',a,K(W,0)),T.icmp('sle',b,T.sub(K(W,MIN),a))),K(W,MIN+1),T.add(a,b)))
-    print(W,'MIN+1 leaf',octa.saturating(bad4,a,b,W,+1))
-    bad5=T.sel(T.icmp('sgt',a,K(W,0)), T.sel(T.icmp('sgt',b,T.sub(K(W,MAX),a)),K(W,MAX),T.add(a,b)), T.add(a,b))
-    print(W,'no lower clamp',octa.saturating(bad5,a,b,W,+1))
-    print(W,'plain add',octa.saturating(T.add(a,b),a,b,W,+1))
-print('--- unsigned')
-for W in (8,64):
-    a=T.atom_bv('s',0,W); b=T.atom_bv('t',0,W)
-    U=(1<<W)-1
-    g1=T.add(a, T.sel(T.icmp('ult', b, T.not_(a)), b, T.not_(a)))
-    print(W,'x+min(y,~x)', octa.saturating(g1,a,b,W,+1,True))
-    g2=T.sel(T.icmp('ugt', b, T.sub(K(W,U), a)), K(W,U), T.add(a,b))
-    print(W,'y > UMAX-x ? UMAX : x+y', octa.saturating(g2,a,b,W,+1,True))
-    b1=T.sel(T.icmp('ugt', b, T.sub(K(W,U-1), a)), K(W,U), T.add(a,b))
-    print(W,'UMAX-1 threshold (x+y == UMAX gives UMAX either way: fine)', octa.saturating(b1,a,b,W,+1,True))
-    b2=T.sel(T.icmp('ugt', b, T.sub(K(W,U-2), a)), K(W,U), T.add(a,b))
-    print(W,'UMAX-2 threshold (wrong)', octa.saturating(b2,a,b,W,+1,True))
-    b3=T.sel(T.icmp('sgt', b, T.sub(K(W,U), a)), K(W,U), T.add(a,b))
-    print(W,'signed compare (outside fragment)', octa.saturating(b3,a,b,W,+1,True))
-    s1=T.sel(T.icmp('ult', a, b), K(W,0), T.sub(a,b))
-    print(W,'usub good', octa.saturating(s1,a,b,W,-1,True))
-    s2=T.sel(T.icmp('ule', a, b), K(W,0), T.sub(a,b))
-    print(W,'usub <= (fine)', octa.saturating(s2,a,b,W,-1,True))
-    s3=T.sub(a, T.sel(T.icmp('ult', a, b), a, b))
-    print(W,'x-min(x,y)', octa.saturating(s3,a,b,W,-1,True))
-    s4=T.sub(a, T.sel(T.icmp('ult', b, a), a, b))
-    print(W,'x-max(x,y) wrong', octa.saturating(s4,a,b,W,-1,True))
-    print(W,'plain sub', octa.saturating(T.sub(a,b),a,b,W,-1,True))
+
+
+def K(w, v):
+    return T.const(w, v)
+
+
+def cases(W):
+    a = T.atom_bv('s', 0, W)
+    b = T.atom_bv('t', 0, W)
+    MAX, MIN, U = (1 << (W - 1)) - 1, 1 << (W - 1), (1 << W) - 1
+    gt0, lt0 = T.icmp('sgt', a, K(W, 0)), T.icmp('slt', a, K(W, 0))
+
+    def sadd(hi_pred, hi_c, lo_pred, lo_c, lo_leaf, x=a, y=b):
+        return T.sel(gt0, T.sel(T.icmp(hi_pred, y, T.sub(K(W, hi_c), x)), K(W, MAX), T.add(x, y)),
+                     T.sel(T.and_(lt0, T.icmp(lo_pred, y, T.sub(K(W, lo_c), x))), K(W, lo_leaf), T.add(x, y)))
+    nb = T.neg(b)
+    yield 'signed: overflow tests then add', sadd('sgt', MAX, 'slt', MIN, MIN), +1, False, True
+    yield 'signed: sadd(x, -y) offered as ssub (wrong for y = MIN)', sadd('sgt', MAX, 'slt', MIN, MIN, a, nb), -1, False, False
+    yield 'signed: >= in the upper test (equality gives MAX either way)', sadd('sge', MAX, 'slt', MIN, MIN), +1, False, True
+    yield 'signed: upper threshold MAX-1 (still exact)', sadd('sgt', MAX - 1, 'slt', MIN, MIN), +1, False, True
+    yield 'signed: lower leaf MIN+1', sadd('sgt', MAX, 'sle', MIN, MIN + 1), +1, False, False
+    yield 'signed: no lower clamp', T.sel(gt0, T.sel(T.icmp('sgt', b, T.sub(K(W, MAX), a)), K(W, MAX), T.add(a, b)), T.add(a, b)), +1, False, False
+    yield 'signed: plain wrapping add', T.add(a, b), +1, False, False
+    yield 'unsigned: x + min(y, ~x)', T.add(a, T.minmax('umin', b, T.not_(a))), +1, True, True
+    yield 'unsigned: y > UMAX - x ? UMAX : x + y', T.sel(T.icmp('ugt', b, T.sub(K(W, U), a)), K(W, U), T.add(a, b)), +1, True, True
+    yield 'unsigned: threshold UMAX-1 (UMAX-1-x wraps for x = UMAX)', T.sel(T.icmp('ugt', b, T.sub(K(W, U - 1), a)), K(W, U), T.add(a, b)), +1, True, False
+    yield 'unsigned: signed compare (outside the fragment)', T.sel(T.icmp('sgt', b, T.sub(K(W, U), a)), K(W, U), T.add(a, b)), +1, True, None
+    yield 'unsigned: x < y ? 0 : x - y', T.sel(T.icmp('ult', a, b), K(W, 0), T.sub(a, b)), -1, True, True
+    yield 'unsigned: x - min(x, y)', T.sub(a, T.minmax('umin', a, b)), -1, True, True
+    yield 'unsigned: x - max(x, y) (wrong)', T.sub(a, T.minmax('umax', a, b)), -1, True, False
+    yield 'unsigned: plain wrapping sub', T.sub(a, b), -1, True, False
+
+
+def main():
+    bad = 0
+    for W in (8, 16, 32, 64):
+        for name, term, sign, uns, want in cases(W):
+            got, detail = octa.saturating(term, T.atom_bv('s', 0, W), T.atom_bv('t', 0, W), W, sign, uns)
+            ok = got is want
+            bad += not ok
+            print('%s W=%-2d %-62s -> %s %s' % ('ok ' if ok else 'BAD', W, name, got, (detail or '')[:110]))
+    print('selftest_octa: %s' % ('all verdicts as expected' if not bad else '%d unexpected verdicts' % bad))
+    return 1 if bad else 0
+
+
+sys.exit(main())
